@@ -52,6 +52,46 @@ CHECKS = {
         "docs, prose defaults are not judged (DESIGN.md 6 O-4, O-5).",
         "DESIGN.md 4 C20",
     ),
+    "C02": (
+        "sync",
+        "exploration",
+        "runtime monitoring: metamorphic oracle (observation under a segmentation == observation under one-piece delivery) "
+        "over systematic and exhaustive segmentations of generated streams, real channel/parser code",
+        "Every generated stream (valid, mutated, oversize, pipelined) is delivered byte-wise, with every single cut, every "
+        "pair of cuts (<= 64 bytes), structural-boundary pairs and random k-cuts; short streams and short chunked bodies "
+        "with ALL 2^(n-1) segmentations. Calls (with content), final statuses, refusal and close must equal the "
+        "one-piece run. Counts cuts that actually landed in each of the six carry-over states.",
+        "Trusts the fake socket's one-recv-per-segment delivery; 400 vs 413 for a body that is both malformed and over "
+        "the limit is not distinguished (DESIGN.md 6 O-6); optional 100 Continue excluded (C19).",
+        "DESIGN.md 4 C02",
+    ),
+    "C06": (
+        "sync",
+        "exploration",
+        "runtime monitoring: refusal-contract monitor + reference parser over boundary sweeps, oversize/malformed "
+        "families and two worker schedules; exception hook on received()/handle_error; CPU-scaling monitor",
+        "Complete sweep of head lengths limit-3..limit+3 (three head shapes, three tails, one-piece / byte-wise / cuts "
+        "at the boundary), body limits -1/0/+1 for Content-Length and chunked, 1..6000-digit numbers, unterminated "
+        "heads / control lines / trailers, mutated sentences under tiny limits, recv sizes 1/64/8192, eager and lazy "
+        "worker. Each run is checked for: no application call, exactly one parseable 400/413/431/501 with Connection: "
+        "close, closure, no recv after the read in which refusal became decidable, no exception, step budget; plus a "
+        "thread-CPU-time scaling monitor over 20 pumped shapes.",
+        "Trusts vf/ref/request.py for which status applies; lookahead 0 for the stops-consuming clause; the scaling "
+        "monitor uses CPU-time ratios with an absolute floor (no wall-clock deadline).",
+        "DESIGN.md 4 C06",
+    ),
+    "C17": (
+        "pure",
+        "exploration",
+        "runtime monitoring: reference bytearray FIFO run in lock-step with the real OverflowableBuffer / "
+        "ReadOnlyFileBasedBuffer over completely enumerated operation histories; internal remain/position invariant hook",
+        "All histories of 5 (quick) / 6 (thorough) operations over the 14-17 operations the server issues, for every "
+        "overflow threshold in {0,1,2,8191,8192,8193,20000}, plus seeded random histories of length <= 60 and the "
+        "read-only buffer grid; every return value and len() is compared with the reference queue after every step. "
+        "exhaustive on the bounded histories (count cross-checked by a DP count).",
+        "Trusts the 40-line reference FIFO; prune() is outside the quantifier (no caller in the server).",
+        "DESIGN.md 4 C17",
+    ),
 }
 
 PENDING = {}
